@@ -741,6 +741,11 @@ func runScenario(sc scenario) (out outcome) {
 	if !d.await(readerDone, "read-eof") {
 		return
 	}
+	if sc.Again && ln != nil && (sc.End == "close" || sc.End == "remote") {
+		if !d.secondSession(ln) {
+			return
+		}
+	}
 	if sc.End == "close" || sc.End == "remote" {
 		// (after a hang-up the library shuts the TNC down by itself, concurrently: not re-closed here)
 		done = d.goSafe(func() { d.tnc.Close() })
@@ -753,6 +758,73 @@ func runScenario(sc scenario) (out outcome) {
 	}
 	d.judge(partial)
 	return
+}
+
+// secondSession: see scenario.Again.
+func (d *driver) secondSession(ln net.Listener) bool {
+	time.Sleep(30 * time.Millisecond)
+	d.sim.Inbound(remote, myCall)
+	var c2 net.Conn
+	var err error
+	done := d.goSafe(func() { c2, err = ln.Accept() })
+	if !d.await(done, "accept-2") {
+		if d.out.stalled == "accept-2" && len(d.out.viol) == 0 {
+			d.out.stalled = "accept-race" // as for the first Accept: reported as inconclusive
+		}
+		return false
+	}
+	if err != nil || c2 == nil {
+		d.violate("second-accept-failed", "a second station connected after the first session had ended: Accept on the same listener returned %v", err)
+		return false
+	}
+	p2 := payload(d.sc.Seed, "second", 0, 200, false)
+	d.sim.SendData("ARQ", p2, nil)
+	var got []byte
+	var rerr error
+	done = d.goSafe(func() {
+		buf := make([]byte, 64)
+		for len(got) < len(p2) {
+			n, e := c2.Read(buf)
+			got = append(got, buf[:n]...)
+			if n > 0 {
+				d.activity.Add(1)
+			}
+			if e != nil {
+				rerr = e
+				return
+			}
+		}
+	})
+	if !d.await(done, "read-2") {
+		return false
+	}
+	if !bytes.Equal(got, p2) {
+		d.violate("second-session-stream", "second connection accepted on the same listener: one ARQ frame of %d bytes was delivered, Read yielded %d bytes (equal prefix %d) and ended with %v",
+			len(p2), len(got), commonPrefix(got, p2), rerr)
+		return false
+	}
+	d.sim.RemoteDisconnect()
+	done = d.goSafe(func() {
+		buf := make([]byte, 64)
+		for {
+			if _, e := c2.Read(buf); e != nil {
+				return
+			}
+		}
+	})
+	if !d.await(done, "read-eof-2") {
+		return false
+	}
+	d.count("second_sessions_on_the_same_listener", 1)
+	return true
+}
+
+func commonPrefix(a, b []byte) int {
+	n := 0
+	for n < len(a) && n < len(b) && a[n] == b[n] {
+		n++
+	}
+	return n
 }
 
 // judge applies the end-of-scenario oracles.
